@@ -63,7 +63,7 @@ def generate(rng, tier, shard, nshards, mon):
                     yield {"kind": "grid", "default": default, "v": [v1, v2], "i": i, "own": own}
                 idx += 1
     mon.exhaustive["grid-2x2-all-pairs"] = True
-    n = (1500 if tier == "quick" else 40000) // nshards
+    n = (1800 if tier == "quick" else 40000) // nshards
     for _ in range(n):
         yield _family(rng)
 
